@@ -159,14 +159,37 @@ var c12IdleGaps = []struct {
 	{"quarter", func(tadv time.Duration) time.Duration { return tadv / 4 }},
 }
 
+// The peer's own transport parameters are part of the history as well: the period the client
+// enforces is a function of its own max_idle_timeout AND the peer's (RFC 9000, 10.1: the
+// minimum of the two, where 0 / absent means "this endpoint does not limit the idle period").
+// A conformant peer may advertise any value; the ones that must leave the client's advertised
+// period untouched are a larger one (the in-tree server's, 10 minutes here) and none at all.
+// (A peer that advertises a shorter period than the client's may see the client leave after
+// that shorter period; the statement gives such a peer nothing to rely on, so it is not run.)
+var c12Peers = []struct {
+	Name      string
+	Advertise func(advertised *quic.Config) // nil: what the in-tree server's Config says
+}{
+	{"in-tree", nil},
+	{"no-idle-timeout", func(c *quic.Config) { c.MaxIdleTimeout = 0 }},
+}
+
 type c12Config struct {
 	FP       int    `json:"fp"`  // index into c12Fingerprints, or -1
 	Gen      int    `json:"gen"` // index into c12Gens() when FP < 0
 	UserConf int    `json:"conf"`
 	Scenario int    `json:"scenario"`
 	Seed     uint64 `json:"seed"`
-	Op       int    `json:"op,omitempty"`  // idle-send: index into c12IdleOps
-	Gap      int    `json:"gap,omitempty"` // idle-send: index into c12IdleGaps
+	Op       int    `json:"op,omitempty"`   // idle-send: index into c12IdleOps
+	Gap      int    `json:"gap,omitempty"`  // idle-send: index into c12IdleGaps
+	Peer     int    `json:"peer,omitempty"` // index into c12Peers
+}
+
+func (c c12Config) peerTag() string {
+	if c.Peer == 0 {
+		return ""
+	}
+	return " peer=" + c12Peers[c.Peer].Name
 }
 
 func (c c12Config) specName() string {
@@ -178,9 +201,9 @@ func (c c12Config) specName() string {
 
 func (c c12Config) String() string {
 	if c12Scenarios[c.Scenario] == "idle-send" {
-		return fmt.Sprintf("%s conf=%s scenario=idle-send op=%s at=%s", c.specName(), c12UserConfs[c.UserConf].Name, c12IdleOps[c.Op], c12IdleGaps[c.Gap].Name)
+		return fmt.Sprintf("%s conf=%s scenario=idle-send op=%s at=%s%s", c.specName(), c12UserConfs[c.UserConf].Name, c12IdleOps[c.Op], c12IdleGaps[c.Gap].Name, c.peerTag())
 	}
-	return fmt.Sprintf("%s conf=%s scenario=%s", c.specName(), c12UserConfs[c.UserConf].Name, c12Scenarios[c.Scenario])
+	return fmt.Sprintf("%s conf=%s scenario=%s%s", c.specName(), c12UserConfs[c.UserConf].Name, c12Scenarios[c.Scenario], c.peerTag())
 }
 
 // ---- what the client put on the wire ----------------------------------------------------
@@ -257,6 +280,11 @@ func c12Run(t *testing.T, cfg c12Config) c12Outcome {
 	var out c12Outcome
 	name := cfg.specName()
 	scen := c12Scenarios[cfg.Scenario]
+	peer := c12Peers[cfg.Peer]
+	tag := scen // prefix of every key and outcome class of this run: scenario and (non-default) peer profile
+	if cfg.Peer != 0 {
+		tag += ":peer=" + peer.Name
+	}
 	var failMu sync.Mutex
 	fail := func(key, format string, a ...any) {
 		failMu.Lock()
@@ -274,6 +302,12 @@ func c12Run(t *testing.T, cfg c12Config) c12Outcome {
 		sconf := &quic.Config{EnableDatagrams: true, MaxIdleTimeout: 10 * time.Minute,
 			InitialStreamReceiveWindow: 32 << 20, MaxStreamReceiveWindow: 32 << 20, InitialConnectionReceiveWindow: 64 << 20, MaxConnectionReceiveWindow: 64 << 20,
 			MaxIncomingStreams: 2000, MaxIncomingUniStreams: 2000}
+		var peerHookUsed func() int
+		if peer.Advertise != nil {
+			restore, used := quic.VerifC12PeerAdvertises(peer.Advertise)
+			defer restore()
+			peerHookUsed = used
+		}
 		ln, err := w.Listen(w.ServerTLS(false), sconf)
 		if err != nil {
 			t.Fatal(err)
@@ -329,7 +363,13 @@ func c12Run(t *testing.T, cfg c12Config) c12Outcome {
 			cleanup(sc)
 			return
 		}
-		keyScen := scen // key prefix of the liveness oracle (idle-send: refined by what the wire shows)
+		// harness sanity (no verdict on the code): the server connection of this run was built with the peer profile
+		if peerHookUsed != nil && peerHookUsed() != 1 {
+			fail("harness:peer-profile", "peer profile %s: %d server connections were created through the hook, expected 1", peer.Name, peerHookUsed())
+			cleanup(sc)
+			return
+		}
+		keyScen := tag // key prefix of the liveness oracle (idle-send: refined by what the wire shows)
 		alive := func(when string) bool {
 			if conn.Context().Err() != nil {
 				fail(keyScen+":client:"+sim.ErrClass(context.Cause(conn.Context())), "%s: the client connection ended with %v although the peer stayed within the advertised transport parameters %v", when, context.Cause(conn.Context()), adv.has)
@@ -359,7 +399,7 @@ func c12Run(t *testing.T, cfg c12Config) c12Outcome {
 		drain := func(r io.Reader, want int, what string) {
 			n, err := io.Copy(io.Discard, r)
 			if err != nil || int(n) != want {
-				fail(scen+":credit-not-usable", "%s: reading the stream after the stall returned %d of %d bytes, err %v", what, n, want, err)
+				fail(tag+":credit-not-usable", "%s: reading the stream after the stall returned %d of %d bytes, err %v", what, n, want, err)
 			}
 		}
 		const cap = 8 << 20
@@ -382,13 +422,13 @@ func c12Run(t *testing.T, cfg c12Config) c12Outcome {
 				}
 				cs, err := conn.OpenStreamSync(ctx)
 				if err != nil {
-					fail(scen+":open", "client OpenStreamSync: %v", err)
+					fail(tag+":open", "client OpenStreamSync: %v", err)
 					break
 				}
 				cs.Write([]byte{1})
 				ss, err := sc.AcceptStream(ctx)
 				if err != nil {
-					fail(scen+":accept", "server AcceptStream: %v", err)
+					fail(tag+":accept", "server AcceptStream: %v", err)
 					break
 				}
 				wg.Add(1)
@@ -401,7 +441,7 @@ func c12Run(t *testing.T, cfg c12Config) c12Outcome {
 				}
 				ss, err := sc.OpenStreamSync(ctx)
 				if err != nil {
-					fail(scen+":open", "server OpenStreamSync: %v", err)
+					fail(tag+":open", "server OpenStreamSync: %v", err)
 					break
 				}
 				wg.Add(1)
@@ -409,7 +449,7 @@ func c12Run(t *testing.T, cfg c12Config) c12Outcome {
 				if limit > 0 {
 					cs, err := conn.AcceptStream(ctx)
 					if err != nil {
-						fail(scen+":accept", "client AcceptStream: %v", err)
+						fail(tag+":accept", "client AcceptStream: %v", err)
 						break
 					}
 					rd = cs
@@ -421,7 +461,7 @@ func c12Run(t *testing.T, cfg c12Config) c12Outcome {
 				}
 				ss, err := sc.OpenUniStreamSync(ctx)
 				if err != nil {
-					fail(scen+":open", "server OpenUniStreamSync: %v", err)
+					fail(tag+":open", "server OpenUniStreamSync: %v", err)
 					break
 				}
 				wg.Add(1)
@@ -429,7 +469,7 @@ func c12Run(t *testing.T, cfg c12Config) c12Outcome {
 				if limit > 0 {
 					cs, err := conn.AcceptUniStream(ctx)
 					if err != nil {
-						fail(scen+":accept", "client AcceptUniStream: %v", err)
+						fail(tag+":accept", "client AcceptUniStream: %v", err)
 						break
 					}
 					rd = cs
@@ -449,15 +489,15 @@ func c12Run(t *testing.T, cfg c12Config) c12Outcome {
 				select {
 				case <-rdone:
 				case <-time.After(2 * time.Minute):
-					fail(scen+":credit-not-usable", "the transfer did not finish within 2 virtual minutes after the application started reading")
+					fail(tag+":credit-not-usable", "the transfer did not finish within 2 virtual minutes after the application started reading")
 				}
 				select {
 				case err := <-done:
 					if err != nil {
-						fail(scen+":server-write", "server write failed: %v", err)
+						fail(tag+":server-write", "server write failed: %v", err)
 					}
 				case <-time.After(time.Minute):
-					fail(scen+":server-write", "server write did not finish")
+					fail(tag+":server-write", "server write did not finish")
 				}
 			}
 			alive("after the transfer")
@@ -473,7 +513,7 @@ func c12Run(t *testing.T, cfg c12Config) c12Outcome {
 				dones[i] = make(chan error, 1)
 				ss, err := sc.OpenUniStreamSync(ctx)
 				if err != nil {
-					fail(scen+":open", "server OpenUniStreamSync: %v", err)
+					fail(tag+":open", "server OpenUniStreamSync: %v", err)
 					break
 				}
 				wg.Add(1)
@@ -493,7 +533,7 @@ func c12Run(t *testing.T, cfg c12Config) c12Outcome {
 					for i := 0; i < 3; i++ {
 						cs, err := conn.AcceptUniStream(ctx)
 						if err != nil {
-							fail(scen+":accept", "client AcceptUniStream: %v", err)
+							fail(tag+":accept", "client AcceptUniStream: %v", err)
 							break
 						}
 						rwg.Add(1)
@@ -504,7 +544,7 @@ func c12Run(t *testing.T, cfg c12Config) c12Outcome {
 				select {
 				case <-rdone:
 				case <-time.After(3 * time.Minute):
-					fail(scen+":credit-not-usable", "the transfers did not finish within 3 virtual minutes after the application started reading")
+					fail(tag+":credit-not-usable", "the transfers did not finish within 3 virtual minutes after the application started reading")
 				}
 			}
 			alive("after the transfers")
@@ -526,7 +566,7 @@ func c12Run(t *testing.T, cfg c12Config) c12Outcome {
 				}
 				ocancel()
 				if err != nil {
-					fail(scen+":credit-not-usable", "the server could open only %d of the %d streams the client advertised: %v", opened, n, err)
+					fail(tag+":credit-not-usable", "the server could open only %d of the %d streams the client advertised: %v", opened, n, err)
 					break
 				}
 				ws.Write([]byte{byte(i)})
@@ -546,16 +586,16 @@ func c12Run(t *testing.T, cfg c12Config) c12Outcome {
 				}
 				acancel()
 				if err != nil {
-					fail(scen+":accept", "client accepted only %d of %d streams: %v", i, opened, err)
+					fail(tag+":accept", "client accepted only %d of %d streams: %v", i, opened, err)
 				}
 			}
 			alive("after accepting the streams")
-			out.class = fmt.Sprintf("%s opened=%d", scen, opened)
+			out.class = fmt.Sprintf("%s opened=%d", tag, opened)
 		case "cids":
 			time.Sleep(2 * time.Second) // NEW_CONNECTION_ID frames are issued right after the handshake
 			if alive("after the server issued connection IDs up to the advertised active_connection_id_limit") {
 				if err := echoBoth(ctx, conn, sc); err != nil {
-					fail(scen+":echo", "%v", err)
+					fail(tag+":echo", "%v", err)
 				}
 			}
 			// the in-tree server never sets Retire Prior To: every in-order history of a conformant
@@ -563,9 +603,9 @@ func c12Run(t *testing.T, cfg c12Config) c12Outcome {
 			lim := adv.get(tpCIDLimit, 2)
 			st, tr, bad := quic.VerifC12CIDBoundary(lim, true)
 			if bad != "" {
-				fail(scen+":rejected-within-advertised-limit", "active_connection_id_limit=%d on the wire: %s", lim, bad)
+				fail(tag+":rejected-within-advertised-limit", "active_connection_id_limit=%d on the wire: %s", lim, bad)
 			}
-			out.class = fmt.Sprintf("%s limit=%d boundary-histories: %d states", scen, lim, st)
+			out.class = fmt.Sprintf("%s limit=%d boundary-histories: %d states", tag, lim, st)
 			_ = tr
 		case "datagram":
 			if adv.get(tpDatagram, 0) == 0 {
@@ -594,7 +634,7 @@ func c12Run(t *testing.T, cfg c12Config) c12Outcome {
 				break
 			}
 			if err := echoBoth(ctx, conn, sc); err != nil {
-				fail(scen+":echo-after-silence", "%v", err)
+				fail(tag+":echo-after-silence", "%v", err)
 			}
 		case "idle-send":
 			tadv := time.Duration(adv.get(tpIdle, 0)) * time.Millisecond
@@ -613,12 +653,12 @@ func c12Run(t *testing.T, cfg c12Config) c12Outcome {
 			// application's action, B for the peer's answer
 			csA, _, err := c12OpenEchoed(ctx, conn, sc)
 			if err != nil {
-				fail(scen+":prelude", "%v", err)
+				fail(tag+":prelude", "%v", err)
 				break
 			}
 			csB, ssB, err := c12OpenEchoed(ctx, conn, sc)
 			if err != nil {
-				fail(scen+":prelude", "%v", err)
+				fail(tag+":prelude", "%v", err)
 				break
 			}
 			// wait until the post-handshake chatter (ACKs, NEW_CONNECTION_ID, MTU probes) has died down
@@ -666,7 +706,7 @@ func c12Run(t *testing.T, cfg c12Config) c12Outcome {
 				err = conn.SendDatagram(make([]byte, 10))
 			}
 			if err != nil {
-				fail(scen+":"+op, "the client application's %s failed: %v", op, err)
+				fail(tag+":"+op, "the client application's %s failed: %v", op, err)
 				break
 			}
 			acted := since()
@@ -684,8 +724,8 @@ func c12Run(t *testing.T, cfg c12Config) c12Outcome {
 			if ip.By != "" {
 				by = ip.By
 			}
-			keyScen = scen + ":restart-by=" + by
-			out.class = fmt.Sprintf("%s op=%s period restarted by: %s", scen, op, by)
+			keyScen = tag + ":restart-by=" + by
+			out.class = fmt.Sprintf("%s op=%s period restarted by: %s", tag, op, by)
 			deadline := ip.Restart + tadv
 			sleepUntil(deadline - 500*time.Millisecond)
 			if now := since(); now < deadline {
@@ -696,7 +736,7 @@ func c12Run(t *testing.T, cfg c12Config) c12Outcome {
 			// the peer answers within the period it can rely on
 			w.Router.SetBlackhole(sim.S2C, false)
 			if _, err := ssB.Write([]byte{9}); err != nil {
-				fail(scen+":server-write", "server write failed: %v", err)
+				fail(tag+":server-write", "server write failed: %v", err)
 				break
 			}
 			csB.SetReadDeadline(time.Now().Add(5 * time.Second))
@@ -719,7 +759,7 @@ func c12Run(t *testing.T, cfg c12Config) c12Outcome {
 			alive("after the exchange that followed the silence")
 		}
 		if out.class == "" {
-			out.class = scen
+			out.class = tag
 		}
 		cleanup(sc)
 		wg.Wait()
@@ -817,6 +857,20 @@ func TestVerifC12(t *testing.T) {
 			}
 			return v
 		}
+		// the peer's own max_idle_timeout matters to the two idle scenarios only: they run against
+		// every peer profile (quick: idle-send against the peer without an idle timeout with the
+		// application acting late in the period only)
+		peers := func(scen string, v [2]int) []int {
+			switch {
+			case scen == "idle", scen == "idle-send" && (e.Thorough() || v[1] == 0):
+				p := make([]int, len(c12Peers))
+				for i := range p {
+					p[i] = i
+				}
+				return p
+			}
+			return []int{0}
+		}
 		// generated lists: every list x the scenario its deviation is about (all scenarios for the baseline) x user configs
 		for gi, g := range gens {
 			for si, sc := range c12Scenarios {
@@ -835,7 +889,9 @@ func TestVerifC12(t *testing.T) {
 						continue
 					}
 					for _, v := range variants(sc) {
-						cfgs = append(cfgs, c12Config{FP: -1, Gen: gi, UserConf: ci, Scenario: si, Seed: seed, Op: v[0], Gap: v[1]})
+						for _, pi := range peers(sc, v) {
+							cfgs = append(cfgs, c12Config{FP: -1, Gen: gi, UserConf: ci, Scenario: si, Seed: seed, Op: v[0], Gap: v[1], Peer: pi})
+						}
 					}
 				}
 			}
@@ -854,12 +910,14 @@ func TestVerifC12(t *testing.T) {
 						continue // quick: zero Config, another idle timeout, keep-alive, no MTU discovery
 					}
 					for _, v := range variants(c12Scenarios[si]) {
-						cfgs = append(cfgs, c12Config{FP: fi, Gen: 0, UserConf: ci, Scenario: si, Seed: seed, Op: v[0], Gap: v[1]})
+						for _, pi := range peers(c12Scenarios[si], v) {
+							cfgs = append(cfgs, c12Config{FP: fi, Gen: 0, UserConf: ci, Scenario: si, Seed: seed, Op: v[0], Gap: v[1], Peer: pi})
+						}
 					}
 				}
 			}
 		}
-		return cfgs, fmt.Sprintf("%d generated transport-parameter lists (baseline + one limit at a time over {absent, 0, small, Config default -1/0/+1, large}) x the boundary scenario of that limit x user Configs; 7 built-in fingerprints x %d boundary scenarios (slow reader per stream type and per connection, maximum concurrent streams, connection ID issuance, DATAGRAM at the advertised size, silence just below the advertised idle timeout counted from the last packet the client received, and - idle-send - from the first ack-eliciting packet it sent since: the path towards the client goes dark, the application does one of {nothing, write, write 2 packets, close, reset, stop-sending, open a bidirectional / unidirectional stream, send a DATAGRAM} a quarter / half / all but 600 ms into its idle period, the peer answers 500 ms before the advertised period counted from the restart the wire shows is over) x user Configs {zero, small/large windows, datagrams on, idle 1s/5s/5min, few / refused (-1) / 2^20 streams, keep-alive, no MTU discovery}%s", len(gens), len(c12Scenarios), map[bool]string{true: "", false: " (window scenarios of the built-in fingerprints with the zero Config only; idle-send of the built-in fingerprints with the Configs zero, idle 5s, keep-alive, idle 1s without MTU discovery)"}[e.Thorough()])
+		return cfgs, fmt.Sprintf("%d generated transport-parameter lists (baseline + one limit at a time over {absent, 0, small, Config default -1/0/+1, large}) x the boundary scenario of that limit x user Configs; 7 built-in fingerprints x %d boundary scenarios (slow reader per stream type and per connection, maximum concurrent streams, connection ID issuance, DATAGRAM at the advertised size, silence just below the advertised idle timeout counted from the last packet the client received, and - idle-send - from the first ack-eliciting packet it sent since: the path towards the client goes dark, the application does one of {nothing, write, write 2 packets, close, reset, stop-sending, open a bidirectional / unidirectional stream, send a DATAGRAM} a quarter / half / all but 600 ms into its idle period, the peer answers 500 ms before the advertised period counted from the restart the wire shows is over; both idle scenarios against a peer that advertises a longer max_idle_timeout of its own (10 min) and against one that advertises none (0)) x user Configs {zero, small/large windows, datagrams on, idle 1s/5s/5min, few / refused (-1) / 2^20 streams, keep-alive, no MTU discovery}%s", len(gens), len(c12Scenarios), map[bool]string{true: "", false: " (window scenarios of the built-in fingerprints with the zero Config only; idle-send of the built-in fingerprints with the Configs zero, idle 5s, keep-alive, idle 1s without MTU discovery; idle-send against the peer without an idle timeout with the application acting late in the period only)"}[e.Thorough()])
 	}
 	part := explore.Part{Name: "limits"}
 	part.Run = func(e explore.Env) *explore.Report {
